@@ -1,15 +1,127 @@
 import Uflow.Model.HalfConn
+import Uflow.Lemmas.PSendHistDemo
 
-/-! # C02 (theorems are being added) -/
+/-!
+# C02 — parent leads, sender side (`packet_sender.rs`)
+
+`emit_packet` stamps every packet with two 16-bit "parent leads": the distance (in sequence ids)
+back to the most recent Reliable packet of the same channel (`channel_parent_lead`) and of any
+channel (`window_parent_lead`) that is still in the transfer window; `0` means "no parent".
+The sender keeps `window_parent_id` / `channels[c].parent_id` for this; `acknowledge` forgets a
+parent when the window base moves past it.
+
+The theorems are about all runs `PSend.runH` (see `Uflow/Props/C05.lean` for the ghost history).
+-/
 
 namespace Uflow.Props.C02
 
-open Uflow
+open Uflow Uflow.PSend
+open Uflow.Props.C20 (Op)
 
 /-- `pidSub` yields a 20-bit value. -/
 theorem C02_pidSub_lt (a b : Nat) : pidSub a b < 2^20 := by
   unfold pidSub
   simp only [Uflow.Gen.PACKET_ID_SPAN]
   omega
+
+/-- What the model computes (`= PSend.ParentLead`). `lead` is the parent lead, with respect to the
+packets satisfying `P`, of the packet at emission position `i` of `em`, emitted when `out` packets
+were outstanding (positions `i - out .. i - 1` were in the window): either none of the packets in
+the window satisfies `P` and `lead = 0`, or `j` is the position of the most recent one that does
+and `lead = (i - j) mod 2^16` (`as u16`). -/
+def LeadIs (P : Emitted → Prop) (em : List Emitted) (i out lead : Nat) : Prop :=
+  (lead = 0 ∧ ∀ j x, em[j]? = some x → j < i → i - j ≤ out → ¬ P x) ∨
+  (∃ j x, em[j]? = some x ∧ j < i ∧ i - j ≤ out ∧ P x ∧
+     (∀ k y, em[k]? = some y → j < k → k < i → ¬ P y) ∧ lead = (i - j) % 2^16)
+
+/-- The same when the truncation cannot bite: `lead` is within the window, it is `0` exactly when no
+packet in the window satisfies `P`, and otherwise the packet `lead` positions back satisfies `P`,
+has sequence id `packet_id::sub(seq, lead)` (what the receiver reconstructs) and no later one
+satisfies `P`. -/
+def LeadExact (P : Emitted → Prop) (em : List Emitted) (i out seq lead : Nat) : Prop :=
+  lead ≤ out ∧ lead ≤ i ∧
+  (lead = 0 ↔ ∀ j x, em[j]? = some x → j < i → i - j ≤ out → ¬ P x) ∧
+  (lead ≠ 0 → ∃ x, em[i - lead]? = some x ∧ P x ∧ x.sequenceId = pidSub seq lead ∧
+    ∀ k y, em[k]? = some y → i - lead < k → k < i → ¬ P y)
+
+/-- **Parent leads, exactly as the model computes them.** From `PacketSender::new(w, b, a)` with
+`b < 2^20`, `w < 2^20`, for the packet `e` at emission position `i`:
+`out = sub(e.sequence_id, base_id at emission)` is the number of packets outstanding at that time,
+`out < w`, `out ≤ i`, the window base then was `add(b, i - out)` — so "still in the window" (id not
+before the base) means emission position `≥ i - out` — and
+* `window_parent_lead` is `LeadIs` for the Reliable packets,
+* `channel_parent_lead` is `LeadIs` for the Reliable packets of `e`'s channel. -/
+theorem C02_leads_correct (w b a : Nat) (hw : w < 2^20) (hb : b < 2^20) (ops : List Op)
+    (s' : State) (h' : Hist) (h : runH (init w b a) {} ops = .ok (s', h')) :
+    ∀ (i : Nat) (e : Emitted), h'.emitted[i]? = some e →
+      pidSub e.sequenceId e.baseAt < w ∧ pidSub e.sequenceId e.baseAt ≤ i ∧
+      e.baseAt = pidAdd b (i - pidSub e.sequenceId e.baseAt) ∧
+      LeadIs (fun x => x.mode = .reliable) h'.emitted i (pidSub e.sequenceId e.baseAt)
+        e.windowParentLead ∧
+      LeadIs (fun x => x.mode = .reliable ∧ x.channelId = e.channelId) h'.emitted i
+        (pidSub e.sequenceId e.baseAt) e.channelParentLead := by
+  intro i e he
+  have hi := hinv_run_init w b a hw hb ops s' h' h
+  obtain ⟨h1, h2, h3, h4, h5⟩ := hi.leads i e he
+  exact ⟨h3, h4, h5, h1, h2⟩
+
+/-- **The 16-bit truncation never bites and `0` is unambiguous** when `w ≤ 2^16` (the library
+asserts `w ≤ 4096`): both leads are `< w`, are `0` exactly when no Reliable packet (of the channel /
+of any channel) is still in the window, and otherwise point exactly at the most recent such packet,
+whose sequence id is `sub(e.sequence_id, lead)`. -/
+theorem C02_leads_exact (w b a : Nat) (hw : w ≤ 2^16) (hb : b < 2^20) (ops : List Op)
+    (s' : State) (h' : Hist) (h : runH (init w b a) {} ops = .ok (s', h')) :
+    ∀ (i : Nat) (e : Emitted), h'.emitted[i]? = some e →
+      pidSub e.sequenceId e.baseAt < w ∧
+      LeadExact (fun x => x.mode = .reliable) h'.emitted i (pidSub e.sequenceId e.baseAt)
+        e.sequenceId e.windowParentLead ∧
+      LeadExact (fun x => x.mode = .reliable ∧ x.channelId = e.channelId) h'.emitted i
+        (pidSub e.sequenceId e.baseAt) e.sequenceId e.channelParentLead := by
+  intro i e he
+  have hi := hinv_run_init w b a (by omega) hb ops s' h' h
+  obtain ⟨h1, h2, h3, _, _⟩ := hi.leads i e he
+  have hseq := (hi.ids i e he).2.1
+  have key : ∀ (P : Emitted → Prop) (lead : Nat),
+      ParentLead P h'.emitted i (pidSub e.sequenceId e.baseAt) lead →
+      LeadExact P h'.emitted i (pidSub e.sequenceId e.baseAt) e.sequenceId lead := by
+    intro P lead hp
+    obtain ⟨a1, a2, a3, a4⟩ := hp.exact (by omega)
+    refine ⟨a1, a2, a3, ?_⟩
+    intro hne
+    obtain ⟨x, hx, hpx, hk⟩ := a4 hne
+    refine ⟨x, hx, hpx, ?_, hk⟩
+    rw [(hi.ids _ x hx).2.1, hseq]
+    have hl : lead < 2^16 := by omega
+    simp only [pidAdd, pidSub, Uflow.Gen.PACKET_ID_SPAN]
+    omega
+  exact ⟨h3, key _ _ h1, key _ _ h2⟩
+
+/-- Every emitted packet is on a valid channel (`< 64`; `emit_packet` indexes `channels[..]`). -/
+theorem C02_emitted_channel_lt (w b a : Nat) (hw : w < 2^20) (hb : b < 2^20) (ops : List Op)
+    (s' : State) (h' : Hist) (h : runH (init w b a) {} ops = .ok (s', h')) :
+    ∀ (i : Nat) (e : Emitted), h'.emitted[i]? = some e → e.channelId < 64 := by
+  intro i e he
+  exact ((hinv_run_init w b a hw hb ops s' h' h).ids i e he).2.2
+
+/-! ### non-vacuity -/
+
+/-- `PSend.histOps` satisfies the hypotheses (window 8, base `2^20 - 3`). -/
+example : ∃ s' h', runH (init 8 histBase 100000) {} histOps = .ok (s', h') ∧ (8 : Nat) ≤ 2^16 ∧
+    histBase < 2^20 := by
+  obtain ⟨s', h', h⟩ := histOps_ok
+  exact ⟨s', h', h, by decide, by decide⟩
+
+/-- Its leads (`PSend.histOps_run`): position 4 (channel 0, ids wrapped) has both leads 4 — parent
+B at position 0; after `acknowledge` moved the base past B, position 5 has leads `0, 0` and position 6
+(channel 0) has channel lead 0 although an earlier Reliable packet of channel 0 exists, and window
+lead 1. -/
+example :
+    (match runH (init 8 histBase 100000) {} histOps with
+     | .ok (_, h) =>
+       h.emitted.map (fun e => (e.channelId, e.mode == .reliable, e.windowParentLead, e.channelParentLead,
+           pidSub e.sequenceId e.baseAt)) ==
+         [ (0, true, 0, 0, 0), (1, false, 1, 0, 1), (1, false, 2, 0, 2), (1, false, 3, 0, 3),
+           (0, false, 4, 4, 4), (1, true, 0, 0, 4), (0, false, 1, 0, 5), (1, false, 2, 2, 6) ]
+     | .error _ => false) = true := by decide +kernel
 
 end Uflow.Props.C02
